@@ -1,0 +1,12 @@
+//go:build verif
+
+package ntske
+
+// Verification hooks (build tag verif): read-only copy of the data a Fetcher
+// caches between requests. Not part of regular builds.
+
+func (f *Fetcher) VerifData() Data {
+	d := f.data
+	d.Cookie = append([][]byte{}, f.data.Cookie...)
+	return d
+}
